@@ -179,16 +179,27 @@ def _th(tag, data):
     return hashlib.sha256(t + t + data).digest()
 
 
+def _mulG(k):
+    """k*G on secp256k1 for input construction: OpenSSL when available (the search for leading-zero triples needs
+    hundreds of multiples), the rig's affine double-and-add otherwise."""
+    try:
+        from cryptography.hazmat.primitives.asymmetric import ec
+        nums = ec.derive_private_key(k, ec.SECP256K1()).public_key().public_numbers()
+        return (nums.x, nums.y)
+    except Exception:  # noqa
+        return h_mul(SECP, k, h_G(SECP))
+
+
 def _h_sign(d0, msg, aux, negate_r=False, negate_p=False):
     """BIP340 signing used ONLY to construct verification inputs (valid triples and crafted invalid ones)."""
-    c, n = SECP, SECP["n"]
-    P = h_mul(c, d0, h_G(c))
+    n = SECP["n"]
+    P = _mulG(d0)
     d = d0 if P[1] % 2 == 0 else n - d0
     if negate_p:
         d = n - d
     t = (d ^ int.from_bytes(_th("BIP0340/aux", aux), "big")).to_bytes(32, "big")
     k0 = int.from_bytes(_th("BIP0340/nonce", t + P[0].to_bytes(32, "big") + msg), "big") % n
-    R = h_mul(c, k0, h_G(c))
+    R = _mulG(k0)
     k = k0 if R[1] % 2 == 0 else n - k0
     if negate_r:
         k = n - k
@@ -211,8 +222,8 @@ def _gen_c(ctx, rnd):
         return list(v.to_bytes(32, "big"))
 
     # ---- secret keys: boundaries, both parities of the public point, leading zero bytes, random
-    odd = next(d for d in range(2, 200) if h_mul(c, d, G)[1] % 2 == 1)
-    even = next(d for d in range(2, 200) if h_mul(c, d, G)[1] % 2 == 0)
+    odd = next(d for d in range(2, 200) if _mulG(d)[1] % 2 == 1)
+    even = next(d for d in range(2, 200) if _mulG(d)[1] % 2 == 0)
     keys = [(1, "key-1"), (n - 1, "key-n-1"), (odd, "key-odd-y"), (even, "key-even-y"), (n - odd, "key-odd-y"), (1 << 255, "key"),
             (255, "key-31-leading-zero-bytes"), (rnd.randrange(1, n), "key-random")]
     lens = [0, 1, 31, 32, 33, 64, 100, 1023, 1024]
@@ -257,7 +268,7 @@ def _gen_c(ctx, rnd):
             vev(pk, msg, _h_sign(d, msg, aux, negate_r=True)[1], "negated-R")
             vev(pk, msg, _h_sign(d, msg, aux, negate_p=True)[1], "negated-P")
             # crafted: s = e d  =>  sG - eP is the point at infinity
-            P = h_mul(c, d, G)
+            P = _mulG(d)
             dd = d if P[1] % 2 == 0 else n - d
             e = int.from_bytes(_th("BIP0340/challenge", sig[:32] + pk + msg), "big") % n
             vev(pk, msg, sig[:32] + bytes(b32(e * dd % n)), "crafted-R-infinity")
@@ -294,7 +305,7 @@ def _gen_c(ctx, rnd):
         tries += 1
         d = rnd.randrange(1, n)
         msg, aux = rnd.randbytes(8), rnd.randbytes(32)
-        P = h_mul(c, d, G)
+        P = _mulG(d)
         if "pk" in want and P[0] >> 248 == 0:
             pk, sig = _h_sign(d, msg, aux)
             vev(pk, msg, sig, "valid")
